@@ -357,6 +357,8 @@ class Mutations:
                 meth = callee[1].split('.')[-1]
                 if meth in ('pop', 'get', 'setdefault', 'popitem') and isinstance(f, ast.Attribute):
                     out |= step_roots(self.roots(fn, f.value, seen), '[]')
+                elif meth in ('values', 'items', 'keys') and isinstance(f, ast.Attribute):
+                    out.add(mkfresh((('[]',), r) for r in step_roots(self.roots(fn, f.value, seen), '[]')))
                 elif meth == 'copy' and isinstance(f, ast.Attribute):
                     out.add(mkfresh((('[]',), r) for r in step_roots(self.roots(fn, f.value, seen), '[]')))
                 else:
